@@ -187,6 +187,11 @@ def cases(tier, seed, i, n):
             for r in range(4 if tier == 'quick' else 10):
                 yield dict(kind='var', src='long', li=li, seg='random', cutseed=seed * 1000 + r, seed=seed, tier=tier)
             yield dict(kind='var', src='long', li=li, seg='prefix-bytewise', cutseed=0, seed=seed, tier=tier)
+        # (vi) reply header blocks whose size is at, just below and just above the 16 KiB limit, cut in and around the
+        # terminating blank line: accepted or refused, but the same way for every segmentation
+        for size in range(16378, 16394):
+            for cs in ('last-1', 'last-2', 'last-3', 'last-4', 'limit', 'limit+1', 'tail-bytewise', 'halves', 'kb'):
+                yield dict(kind='hsize', size=size, cs=cs)
         # (v) through an HTTP proxy: the received byte stream is the proxy's answer followed by whatever the far end
         # sends; a far end (or a front-end load balancer) that answers without waiting for the request puts its
         # bytes right behind the proxy's answer, possibly in the same read
@@ -295,10 +300,24 @@ def compare(acc, case, st, cuts, label):
     return True
 
 
+def run_hsize(case, acc):
+    size = case['size']
+    st = dict(name='hs-%d' % size, body=F(1, b'hi') + F(9, b'p') + F(8, b'\x03\xe8bye'), z=False, hs=dict(pad_to=size), eof=True)
+    total = size + len(st['body'])
+    cuts = {'last-1': [size - 1], 'last-2': [size - 2], 'last-3': [size - 3], 'last-4': [size - 4], 'limit': [16384], 'limit+1': [16385],
+            'tail-bytewise': list(range(size - 6, total)), 'halves': [size // 2], 'kb': list(range(1024, total, 1024))}[case['cs']]
+    cuts = [c for c in cuts if 0 < c < total]
+    if compare(acc, dict(case), st, cuts, case['cs']):
+        acc.cls('hsize/%d/%s' % (size, case['cs']))
+    acc.count2('oracle', 'header_size_boundary_runs')
+
+
 def run_case(case, acc):
     k = case['kind']
     if k == 'proxy':
         return run_proxy(case, acc)
+    if k == 'hsize':
+        return run_hsize(case, acc)
     if k == 'exh':
         st = catalogue()[case['si']]
         hl = hs_len_of(st)
